@@ -43,10 +43,11 @@ def rule_union(ck: Check, repo: Repo) -> None:
             return ("render", ["reuse_info"])
         if v(f"raise[ExpressionError]@{EXI}") or v(f"raise[ParseError]@{EXI}"):
             return ("raise", "CommentCreateError")
+        plain = [UNION, UNION2, f"reuse_info.copyright_lines | {EXI}.copyright_lines", f"{EXI}.copyright_lines | reuse_info.copyright_lines"]
         if v("merge"):
-            cl = [f"merge_copyright_lines({UNION})", f"merge_copyright_lines({UNION2})"]
+            cl = [f"merge_copyright_lines({u})" for u in plain]
         else:
-            cl = [UNION, UNION2, f"reuse_info.copyright_lines | {EXI}.copyright_lines", f"{EXI}.copyright_lines | reuse_info.copyright_lines"]
+            cl = plain
         bases = [f"({EXI} | reuse_info)", f"({EXI}.union(reuse_info))", f"{EXI}.union(reuse_info)", f"(reuse_info | {EXI})", f"reuse_info.union({EXI})"]
         return ("render", [f"{b}.copy(copyright_lines={c})" for b in bases for c in cl])
 
@@ -183,6 +184,85 @@ def rule_skip(ck: Check, repo: Repo) -> None:
         r.violation(q, "skip test operand", "must test the text that was read", repo.loc(fn))
 
 
+MUTATORS = {"add", "update", "discard", "remove", "clear", "pop", "append", "extend", "insert", "sort", "reverse",
+            "difference_update", "intersection_update", "symmetric_difference_update", "setdefault", "popitem"}
+
+
+def rule_no_mutation(ck: Check, repo: Repo, rid: str = "R5") -> None:
+    """The annotate command builds ONE request (ReuseInfo) and reuses it for every path: nothing on the
+    per-file path may mutate an object reachable from its parameters (which API hands out a mutable
+    reference to shared storage)."""
+    r = ck.rule(rid, "the request object is shared by all files of one invocation: no in-place mutation of parameter-reachable sets")
+    funcs = [f"{HD}.create_header", f"{HD}._create_new_header", f"{HD}.find_and_replace_header", f"{HD}.add_new_header",
+             "reuse._annotate.add_header_to_file", "reuse.copyright.merge_copyright_lines", f"{RI}.union", f"{RI}.copy",
+             "reuse.cli.annotate.annotate"]
+    n = 0
+    for q in funcs:
+        fn = repo.func(q)
+        ck.analysed_fn(q)
+        params = {a.arg for a in fn.args.args + fn.args.kwonlyargs} - {"self", "cls"}
+        if q.endswith(".union") or q.endswith(".copy"):
+            params |= {"self"}
+        # aliases: local = <param>.<attr> / <param> (single plain assignment, no copy)
+        alias: dict[str, str] = {}
+        for st in ast.walk(fn):
+            if isinstance(st, ast.Assign) and len(st.targets) == 1 and isinstance(st.targets[0], ast.Name):
+                v = st.value
+                base = v
+                while isinstance(base, ast.Attribute):
+                    base = base.value
+                if isinstance(v, (ast.Attribute, ast.Name)) and isinstance(base, ast.Name) and (base.id in params or base.id in alias):
+                    if st.targets[0].id not in params or True:
+                        alias[st.targets[0].id] = ast.unparse(v)
+        # a name that is re-bound to a fresh object before any mutation is not an alias any more: keep it simple and
+        # conservative - only names whose EVERY assignment is an alias assignment count
+        for name in list(alias):
+            assigns = [st for st in ast.walk(fn) if isinstance(st, ast.Assign) and any(ast.unparse(t) == name for t in st.targets)]
+            if any(not isinstance(st.value, (ast.Attribute, ast.Name)) for st in assigns):
+                # mixed: decide per mutation site by the nearest preceding assignment
+                pass
+
+        def shared(expr: ast.AST, at_line: int) -> str | None:
+            base = expr
+            while isinstance(base, ast.Attribute):
+                base = base.value
+            if not isinstance(base, ast.Name):
+                return None
+            if base.id in params and isinstance(expr, ast.Attribute):
+                return ast.unparse(expr)
+            if isinstance(expr, ast.Name) and expr.id in alias:
+                prev = [st for st in ast.walk(fn) if isinstance(st, ast.Assign) and st.lineno <= at_line
+                        and any(ast.unparse(t) == expr.id for t in st.targets)]
+                if prev:
+                    last = max(prev, key=lambda st: st.lineno)
+                    v = last.value
+                    b = v
+                    while isinstance(b, ast.Attribute):
+                        b = b.value
+                    if isinstance(v, (ast.Attribute, ast.Name)) and isinstance(b, ast.Name) and (b.id in params or b.id in alias) \
+                            and not (isinstance(v, ast.Name) and v.id in params and False):
+                        return f"{expr.id} (alias of {ast.unparse(v)})"
+            return None
+
+        for node in ast.walk(fn):
+            hit = None
+            if isinstance(node, ast.AugAssign):
+                hit = shared(node.target, node.lineno)
+                what = f"{ast.unparse(node.target)} {type(node.op).__name__}= …"
+            elif isinstance(node, ast.Call) and isinstance(node.func, ast.Attribute) and node.func.attr in MUTATORS:
+                hit = shared(node.func.value, node.lineno)
+                what = f"{ast.unparse(node.func)}(…)"
+            else:
+                continue
+            n += 1
+            r.instance(f"{q}:{ast.unparse(node)[:50]}", {"function": q, "site": ast.unparse(node)[:70], "shared_object": hit})
+            if hit and not (q.endswith("annotate.annotate")):
+                r.violation(q, f"in-place mutation of {hit}",
+                            f"`{what}` changes an object that belongs to the caller; `reuse annotate` reuses one request for every"
+                            f" path, so information from one file leaks into all files processed after it", repo.loc(node))
+    r.floor(3, "mutation sites examined", got=n)
+
+
 def run(ck: Check, repo: Repo) -> None:
     ck.explanation = (
         "R1 on every path of create_header with an existing header, the information handed to the renderer is the"
@@ -200,3 +280,6 @@ def run(ck: Check, repo: Repo) -> None:
     rule_skip(ck, repo)
     r4 = ck.rule("R4", "post-render check (shared with C07-R1)")
     c07.postcondition(ck, repo, r4)
+    rule_no_mutation(ck, repo)
+    from . import c20
+    c20.rule_merge(ck, repo, "R6")
